@@ -159,6 +159,7 @@ void genC07(uint64_t seed, int tier, Scenario& sc) {
             // games with promotions and castling are the interesting histories for the incremental state
             int k = (int)r.below(10);
             if (k < 2) { Rng r2(r.next(), 5); pg::randomGame(r2, (int)r.range(0, 30), false, gp); }
+            else if (k < 5) { if (!pg::endgameClass(r, gp)) pg::anyPosition(r, gp); } // material classes with special endgame knowledge
             else pg::anyPosition(r, gp);
         } else if (!gp.legalUci.empty()) {
             // continue the same game by one move: consecutive searches flip the sign of whiteContempt
@@ -201,7 +202,7 @@ void runC07H(const Scenario& sc, vf::Result& res) {
     o.et = std::move(oet);
     std::unique_ptr<Evaluate> ev(new Evaluate(*et));
     pg::GenPos gp;
-    pg::anyPosition(r, gp);
+    if (!(r.chance(0.3) && pg::endgameClass(r, gp))) pg::anyPosition(r, gp);
     Position pos(gp.pos);
     ev->connectPosition(pos);
     int contempt = 0;
@@ -246,7 +247,7 @@ void runC07H(const Scenario& sc, vf::Result& res) {
             res.counters["op_null_move"]++;
         } else if (k < 72) { // position assignment at the current stack depth (HelperThreadResult / StopSearch paths)
             Position src = earlier[r.below(earlier.size())];
-            if (r.chance(0.3)) { pg::GenPos g2; pg::anyPosition(r, g2); src = g2.pos; }
+            if (r.chance(0.3)) { pg::GenPos g2; if (!(r.chance(0.4) && pg::endgameClass(r, g2))) pg::anyPosition(r, g2); src = g2.pos; }
             pos = src;
             stack.clear(); // the undo information no longer applies
             res.counters["op_assign"]++;
